@@ -3,6 +3,7 @@ import XyzModel.Batch
 import XyzModel.Core
 import XyzModel.Value
 import XyzModel.Crop
+import XyzModel.ToDs
 /-! JSON-lines driver over the executable models (DESIGN.md Appendix B). One request per line, one reply per line. -/
 open Lean
 
@@ -133,6 +134,61 @@ def opCore (j : Json) : Json :=
         ("out", Json.arr (rs.map fun r =>
           if flat then Json.arr (r.flat.map (symJson kind)).toArray else nestJson kind r.nested).toArray)]
 
+/-! ### labelled outputs -/
+
+def strList (j : Json) (k : String) : List String := ((j.getObjValAs? (List String) k).toOption).getD []
+
+def descOf (j : Json) : ToDs.Desc :=
+  { varNames := strList j "varNames"
+    varDims := ((j.getObjValAs? (List (List String)) "varDims").toOption).getD []
+    varCoords := strList j "varCoords"
+    constants := strList j "constants"
+    resources := strList j "resources"
+    attrs := strList j "attrs"
+    autoVars := (getArr j "autoVars").map fun v =>
+      (getStr v "name", strList v "dims") }
+
+/-- kind of output `jj` when there are `k` outputs -/
+def outKind (kind : Value.Val) (k jj : Nat) : Value.Val :=
+  match kind with
+  | .ds vars => match vars[jj]? with
+    | some (_, [], l) => .scalar l
+    | some (_, sh, l) => .arr sh l
+    | none => .scalar .num
+  | _ => if k ≤ 1 then kind else compKind kind jj
+
+def dsJson (kind : Value.Val) (ds : ToDs.DS Sym) : Json :=
+  Json.mkObj [
+    ("dims", Json.arr (ds.dims.map fun d => Json.arr #[d.1, toJson d.2]).toArray),
+    ("extraCoords", toJson ds.extraCoords),
+    ("attrs", toJson ds.attrs),
+    ("vars", Json.arr (ds.vars.map fun v =>
+      Json.mkObj [("name", v.name), ("dims", toJson v.dims), ("data", nestJson kind v.data)]).toArray)]
+
+/-- run to a labelled dataset on symbolic cells: output `jj` at `loc` is `Sym.c loc jj` -/
+def toDsSym (d : ToDs.Desc) (kind : Value.Val) (s : Core.Sweep) (st : Core.Strategy) : Except Core.Err (ToDs.DS Sym) :=
+  let k := d.outputs.length
+  -- per-output placeholder kinds differ, so run the outputs one by one as `coreSplit` does
+  match (List.range k).mapM (fun jj => Core.core (fun loc => Sym.c loc jj) (symNanLike (outKind kind k jj)) s st) with
+  | .error e => .error e
+  | .ok runs => .ok (ToDs.resultsToDs d s (runs.map (·.nested)))
+
+def opToDs (j : Json) : Json :=
+  let s := sweepOf j
+  let st := strategyOf j
+  let kind := valOfJson (getObj j "kind")
+  let d := descOf (getObj j "desc")
+  if getBool j "to_df" then
+    match ToDs.toDf d (fun loc => (List.range (max 1 d.outputs.length)).map fun jj => Sym.c loc jj) (fun r => r) s st with
+    | .error e => err (coreErr e)
+    | .ok rows => Json.mkObj [("rows", Json.arr (rows.map fun r =>
+        Json.mkObj [("loc", toJson r.loc), ("extra", toJson r.extra),
+                    ("outputs", Json.arr (r.outputs.map (symJson kind)).toArray)]).toArray)]
+  else
+    match toDsSym d kind s st with
+    | .error e => err (coreErr e)
+    | .ok ds => dsJson kind ds
+
 /-! ### crop histories -/
 
 def cropErr : Crop.Err → String
@@ -227,6 +283,7 @@ def handle (j : Json) : Json :=
   | "batch" => opBatch j
   | "core" => opCore j
   | "crop" => opCrop j
+  | "tods" => opToDs j
   | "ping" => Json.mkObj [("pong", true)]
   | o => err s!"bad-op {o}"
 
